@@ -1,8 +1,4 @@
 import CrdtModel.Audit.Tool
-import CrdtModel.Props.C07
-import CrdtModel.Props.C06
 import CrdtModel.Props.C05
-#audit_ns Crdt.C07
-#audit_ns Crdt.C06
 #audit_ns Crdt.C05
 #audit_ns Crdt.CMap
